@@ -357,6 +357,37 @@ Definition lib_session (fixed server : bool) (limit : Z) (extra : nat) (inp : by
   let* (c, rs) := read_loop (S (length inp)) extra fixed (new_conn server limit inp) [] in
   Ok (rev' rs, rev' (c_out c)).
 
+(* ---- the application may also drop a message: NextReader, then NextReader again without reading
+   (the next advanceFrame skips what is left of the frame, step 1, and the NextReader loop walks over the
+   remaining fragments).  pat: for the i-th successful NextReader, true = abandon. *)
+Definition next_reader_only (fixed : bool) (c : conn) : res (conn * rresult) :=
+  let fuel := S (S (length (c_in c))) in
+  let c := set_len c 0 in
+  let* (c, r) := next_reader_loop fuel fixed c in
+  match r with
+  | None => next_reader_fail c
+  | Some t => Ok (c, RMsg t [])
+  end.
+
+Fixpoint read_loop_pat (fuel : nat) (fixed : bool) (pat : list bool) (c : conn) (acc : list (bool * rresult))
+  : res (conn * list (bool * rresult)) :=
+  match fuel with
+  | O => Err 99
+  | S f =>
+    let abandon := match pat with b :: _ => b | [] => false end in
+    let pat' := match pat with _ :: t => t | [] => [] end in
+    let* (c, r) := (if abandon then next_reader_only fixed c else read_message fixed c) in
+    match r with
+    | RMsg _ _ => read_loop_pat f fixed pat' c ((abandon, r) :: acc)
+    | RErr _ => Ok (c, (abandon, r) :: acc)
+    end
+  end.
+
+Definition lib_session_pat (fixed server : bool) (limit : Z) (pat : list bool) (inp : bytes)
+  : res (list (bool * rresult) * list (Z * bytes)) :=
+  let* (c, rs) := read_loop_pat (S (length inp)) fixed pat (new_conn server limit inp) [] in
+  Ok (rev' rs, rev' (c_out c)).
+
 (* ================================================================== RFC 6455 receiver *)
 Open Scope N_scope.
 
@@ -526,7 +557,7 @@ Definition ser_frame (fin : bool) (rsv op : N) (masked : bool) (form : N) (key p
 Close Scope N_scope.
 
 (* ------------------------------------------------------------------ harness interface
-   case:  (fixed server limit extra xWIRE)
+   case:  (fixed server limit extra xWIRE)   or   (fixed server limit 0 xWIRE (a1 a2 ...)) with ai = 1: abandon the i-th message
    obs:   ((reads...) (writes...) (spec-events...) spec-outcome)    or (2) on a panic
      read:   (0 type xpayload) | (1 kind ...)       write: (opcode xpayload)
      event:  (0 op xpayload) message | (1 xpayload) pong
@@ -565,6 +596,23 @@ Definition run_c14 (c : sx) : sx :=
       match lib_session (fixed =? 1) (server =? 1) limit (Z.to_nat extra) wire with
       | Ok (rs, ws) =>
         SL [SL (map sx_result rs); SL (map (fun w => SL [SZ (fst w); SB (snd w)]) ws);
+            SL (map sx_event evs); sx_outcome o]
+      | Err _ => SL [SZ 1]
+      | Panic _ => s_panic
+      end
+    else bad_case
+  | SL [SZ fixed; SZ server; SZ limit; SZ _; SB wire; SL pat] =>
+    (* a session in which some messages are abandoned: (3 type) = reader taken, not read *)
+    if wf_bytesb wire then
+      let '(evs, o) := rfc_receive (server =? 1) limit wire in
+      let patb := map (fun x => match x with SZ 1 => true | _ => false end) pat in
+      match lib_session_pat (fixed =? 1) (server =? 1) limit patb wire with
+      | Ok (rs, ws) =>
+        SL [SL (map (fun ar => match ar with
+                               | (true, RMsg t _) => SL [SZ 3; SZ t]
+                               | (_, r) => sx_result r
+                               end) rs);
+            SL (map (fun w => SL [SZ (fst w); SB (snd w)]) ws);
             SL (map sx_event evs); sx_outcome o]
       | Err _ => SL [SZ 1]
       | Panic _ => s_panic
